@@ -231,5 +231,5 @@ MANIFEST = {
                    "folding through f64 (beyond 2^53, i64 overflow), fast scan changing verdicts of `N of (..) in (..)`, fast scan keeping a match "
                    "that is not the lowest one. Exact-atoms, FastVM/PikeVM, pulley and hoisting have no model: differential only. SIMD kernels not modelled."),
     "technique": "Coq proofs over source-generated models of each optimisation + differential scans across run-time toggles and cargo feature sets",
-    "design_ref": "DESIGN.md section 4, C03; findings 10, 17, 18, 19",
+    "design_ref": "DESIGN.md section 4, C03",
 }
